@@ -149,13 +149,14 @@ theorem run_attrs (rest : List Token) (lexErr : Option Nat) : ∀ (attrs : List 
     cases b; simp_all
   | cons a as ih =>
     intro b eb heb hw hp hn
-    obtain ⟨hwp, hwx⟩ := hw a (by simp)
+    obtain ⟨hwp, hwx, hps⟩ := hw a (by simp)
     simp only [List.map_cons, List.cons_append, Builder.run]
     have hstep : b.step a.token =
         .ok { b with eb := some { eb with attributes := eb.attributes ++ [a.builder] } } := by
       have h1 : (([] : Str) == ['x', 'm', 'l', 'n', 's']) = false := by decide
       have h2 : (a.name.text == ['x', 'm', 'l', 'n', 's']) = false := by simpa using hwx
-      simp only [SAttr.token, Builder.step, h1, Bool.false_eq_true, if_false, h2, Bool.and_false]
+      have hbc : (⟨[], a.pstart⟩ : StrSpan).bareColon = false := by simp [StrSpan.bareColon, hps]
+      simp only [SAttr.token, Builder.step, hbc, h1, Bool.false_eq_true, if_false, h2, Bool.and_false]
       unfold Builder.attribute
       rw [heb]
       simp only
